@@ -35,7 +35,26 @@ RULE = ("random discrete frames: 1..80 rows, 2+|Z| (+1 spare) columns, |Z| 0..3,
         "string / duplicate string / float / datetime / MultiIndex (unique and duplicate) - all kinds on dedicated cases, two "
         "kinds (one with duplicates) on every other discrete and pearsonr case; the answer must not change.  Conditioning "
         "stream (pearson_big): offsets up to 1e9 x spread and units 1e-8..1e8 per column applied in floats; oracle = the "
-        "model's exact partial correlation of the floats as given, tolerance 256*eps*n*max|mean|/spread*(spread/residual spread)^2.  A discrete case is non-trivial when the model's dof >= 1; a pearsonr case when the residual "
+        "model's exact partial correlation of the floats as given, tolerance 256*eps*n*max|mean|/spread*(spread/residual spread)^2.  "
+        "Generalisation classes (notes/GENERALISATION_CHECKLIST.md): A sessions on one DataFrame object for the discrete "
+        "tests and (psession) for pearsonr; B the frame is compared with a deep snapshot after the calls (values, dtypes, "
+        "index, columns), also after rejected calls and after PC.build_skeleton; C not applicable (results are tuples of "
+        "floats / bools); D index stream incl. shifted RangeIndex, frames obtained by FILTERING a larger frame (gapped index, "
+        "Categorical levels unused by filtering), integer columns as int/int8/Int64/bool/float/near-equal floats/object "
+        "str/str/tuple objects, constant columns, column order; pearsonr frames as int64/int32 dtype; E name sets with "
+        "prefixes (x1/x10), pandas keywords (index, level_0, size, count, values), blank/empty names, integer names (on "
+        "frames without Categoricals) - tuple and bool column names are rejected by pandas' .loc/groupby on the unchanged "
+        "tree and are not generated; F state labels that are not positions, bools, labels shared across columns; G |Z| = 5 "
+        "and 9, constant (cardinality-1) X/Y/Z, frames of 1500-3000 rows, alpha = int 0 / 1, numeric lambda_ 0 - empty "
+        "frames and NaN are outside the model (ASSUMPTIONS); H pearsonr units 1e-300..1e300 on every column, offsets to "
+        "1e9 x spread, nearly collinear conditioning columns (2^-10..2^-30), discrete float labels differing by 1 ulp; "
+        "I not applicable (no backend switch in CITests); J boolean given / omitted (default True), keyword / positional / "
+        "PC's own call form (positional, tuple Z, independencies=None), Z as list/tuple/set/frozenset/ndarray/Index/"
+        "iterator/dict_keys, every lambda_ form; the PC route: PC.build_skeleton(ci_test=<name>) for all six names x "
+        "variants orig/stable/parallel on 2 and 3 variables, with significance levels placed strictly between the five "
+        "tests' p-values so that a mis-dispatched name changes the skeleton; K X/Y in Z, Z not iterable, missing "
+        "column, missing significance_level, non-DataFrame data, unobserved Categorical level without Z, followed by a "
+        "valid call on the same frame; L row order, Z order (incl. set-valued Z), X/Y swap, column order, 2/4 hash seeds.  A discrete case is non-trivial when the model's dof >= 1; a pearsonr case when the residual "
         "correlation is defined.  distinct = distinct canonical (kind, data, X, Y, Z, wrapper, lambda_, alpha)")
 TRUSTED_BASE = [
     "scipy.stats.chi2_contingency / power_divergence cell formula (PHI is an uninterpreted atom; the harness "
@@ -47,7 +66,9 @@ TRUSTED_BASE = [
 ASSUMPTIONS = [
     "column values and names are interned to nat by the harness; float rounding is not modelled "
     "(statistic compared to 1e-9 relative, p-value to 1e-9 absolute, residuals to 1e-7)",
-    "data frames are non-empty and contain no NaN",
+    "data frames are non-empty and contain no NaN; float32 columns are not generated (the 1e-9 tolerances assume float64)",
+    "pandas limitations on the unchanged tree that are not pgmpy's: tuple / bool column names (KeyError in .loc/groupby), a key "
+    "list whose length equals the number of rows and contains a non-column is read by groupby as per-row labels",
 ]
 
 WRAPPERS = ["chi_square", "g_sq", "log_likelihood", "modified_log_likelihood", "power_divergence_default",
@@ -83,6 +104,18 @@ def gen_rows(rng, ncols, cards, nrows, law, X, Y, Z):
     return rows
 
 
+def decorate(rng, c):
+    """dtype of every integer column, name set, container of Z, call form, integer significance levels"""
+    if rng.random() < 0.6:
+        c["dt"] = [rng.choice(DTYPES_INT) for _ in c["kinds"]]
+    if rng.random() < 0.4:
+        c["nameset"] = rng.randrange(len(NAMESETS))
+    c["zform"] = rng.choice(ZFORMS)
+    c["callform"] = rng.choice(["kw", "kw", "pc", "pos"])
+    if rng.random() < 0.1:
+        c["alpha"] = rng.choice([0, 1])
+
+
 def gen_disc(rng, tier):
     nz = rng.choice([0, 0, 1, 1, 2, 3])
     ncols = 2 + nz + rng.choice([0, 1])
@@ -104,8 +137,10 @@ def gen_disc(rng, tier):
             larg = ["num", rng.choice(NUM_LAMBDAS)]
         else:
             larg = ["none"]
-    return {"kind": "disc", "kinds": kinds, "rows": rows, "X": X, "Y": Y, "Z": Z, "w": w, "larg": larg,
-            "alpha": rng.choice(ALPHAS), "law": law, "lab": rng.randint(0, 3), "sh": rng.randint(0, 10 ** 9)}
+    c = {"kind": "disc", "kinds": kinds, "rows": rows, "X": X, "Y": Y, "Z": Z, "w": w, "larg": larg,
+         "alpha": rng.choice(ALPHAS), "law": law, "lab": rng.randint(0, 3), "sh": rng.randint(0, 10 ** 9)}
+    decorate(rng, c)
+    return c
 
 
 NUMERIC_GRID = [["int", 0], ["num", 0.0], ["num", -0.0], ["int", 1], ["int", -1], ["num", -1.0], ["int", -2],
@@ -139,6 +174,52 @@ def gen_lambda(rng, larg, with_z):
     return {"kind": "disc", "kinds": [None] * ncols, "rows": rows, "X": X, "Y": Y, "Z": Z, "w": "power_divergence",
             "larg": list(larg), "alpha": rng.choice(ALPHAS), "law": "full", "lab": rng.randint(0, 3),
             "sh": rng.randint(0, 10 ** 9)}
+
+
+def gen_wide(rng, tier):
+    """many conditioning variables (5 or 9: a set of >= 8 small ints no longer iterates in increasing order)"""
+    nz = rng.choice([5, 9])
+    ncols = 2 + nz
+    cols = list(range(ncols))
+    rng.shuffle(cols)
+    X, Y, Z = cols[0], cols[1], cols[2:]
+    cards = [2] * ncols
+    rows = gen_rows(rng, ncols, cards, rng.choice([40, 80, 120]), rng.choice(["skew", "dep"]), X, Y, Z[:2])
+    for r in rows:                       # keep the number of observed strata small enough to have dof >= 1
+        for z in Z[2:]:
+            r[z] = r[Z[0]] if rng.random() < 0.85 else 1 - r[Z[0]]
+    c = {"kind": "disc", "kinds": [None] * ncols, "rows": rows, "X": X, "Y": Y, "Z": Z, "w": rng.choice(WRAPPERS[:5]),
+         "larg": None, "alpha": rng.choice(ALPHAS), "law": "wide", "lab": 0, "sh": rng.randint(0, 10 ** 9)}
+    decorate(rng, c)
+    c["nameset"] = rng.randrange(len(NAMESETS))
+    c["zform"] = rng.choice(["set", "frozenset", "list", "tuple"])
+    return c
+
+
+def gen_const(rng, tier):
+    """a constant (cardinality-1) column in the role of X, Y or a conditioning variable"""
+    c = gen_disc(rng, tier)
+    while len(c["rows"]) < 8:
+        c = gen_disc(rng, tier)
+    role = rng.choice(["X", "Y", "Z"] if c["Z"] else ["X", "Y"])
+    col = c[role] if role != "Z" else rng.choice(c["Z"])
+    v = rng.randrange(2)
+    for r in c["rows"]:
+        r[col] = v
+    if c["kinds"][col] is not None and not c["Z"] and role != "Z":
+        c["kinds"][col] = None
+    c["law"] = "const-" + role
+    return c
+
+
+def gen_large(rng, tier):
+    c = gen_disc(rng, tier)
+    ncols = len(c["kinds"])
+    cards = [rng.randint(2, 4) for _ in range(ncols)]
+    c["rows"] = gen_rows(rng, ncols, cards, rng.choice([1500, 3000]), "dep", c["X"], c["Y"], c["Z"])
+    c["kinds"] = [None if k is None else 4 for k in c["kinds"]]
+    c["law"] = "large"
+    return c
 
 
 def gen_indep(rng, tier):
@@ -186,7 +267,7 @@ def gen_indep(rng, tier):
 
 def gen_bad(rng, tier):
     c = gen_disc(rng, tier)
-    t = rng.choice(["xinz", "unobs", "docname"])
+    t = rng.choice(["xinz", "unobs", "docname", "znoniter", "nocol", "noalpha", "badlambda"])
     c["kind"] = "bad"
     c["bad"] = t
     if t == "xinz":
@@ -196,9 +277,12 @@ def gen_bad(rng, tier):
         c["Z"] = []
         col = rng.choice([c["X"], c["Y"]])
         c["kinds"][col] = max(r[col] for r in c["rows"]) + 2
-    else:
+    elif t == "docname":
         c["w"] = "power_divergence"
         c["larg"] = ["docname", "freeman-tuckey"]
+    else:
+        c["reject"] = t
+        c["zform"], c["callform"] = "list", "kw"
     return c
 
 
@@ -256,12 +340,13 @@ def gen_pearson(rng, tier):
     scales = [rng.choice([0.25, 0.5, 2.0, 3.0, 5.0, 0.75, 10.0]) for _ in range(nz + 2)]
     return {"kind": "pearson", "den": den, "z": z, "x": x, "y": y, "alpha": rng.choice(ALPHAS), "mode": mode,
             "sing": sing, "spread": spread, "const": const, "shifts": shifts, "scales": scales,
+            "pnames": rng.randrange(5), "zform": rng.choice(ZFORMS),
             "xscales": [rng.choice(EXTREME_XY) for _ in range(2)] +
                        (lambda side: [rng.choice(side) for _ in range(nz)])(rng.choice([EXTREME_Z[:3], EXTREME_Z[3:]])),
             "zperm": rng.randint(0, 10 ** 9)}
 
 
-INDEX_KINDS = ["range", "perm", "gap", "dup", "dup-concat", "str", "str-dup", "float", "date", "multi", "multi-dup"]
+INDEX_KINDS = ["range", "shifted", "perm", "gap", "dup", "dup-concat", "str", "str-dup", "float", "date", "multi", "multi-dup"]
 
 
 def make_index(kind, n, seed):
@@ -271,6 +356,8 @@ def make_index(kind, n, seed):
     r = np.random.RandomState(seed % (2 ** 31))
     if kind == "range":
         return pd.RangeIndex(n)
+    if kind == "shifted":
+        return pd.RangeIndex(1 + r.randint(0, 50), 1 + r.randint(0, 50) + n) if False else pd.RangeIndex(7, 7 + n)
     if kind == "perm":
         return pd.Index(r.permutation(n))
     if kind == "gap":
@@ -316,7 +403,7 @@ def gen_pearson_big(rng, tier):
         c = gen_pearson(rng, tier)
     nz = len(c["z"][0]) if c["z"] else 0
     c["kind"] = "pearson_big"
-    t = rng.choice(["z-offset", "z-offset", "all-offset", "units", "both"])
+    t = rng.choice(["z-offset", "z-offset", "all-offset", "units", "both", "magnitude", "near-collinear"])
     offs = [0.0] * (nz + 2)
     scs = [1.0] * (nz + 2)
     for j in range(nz + 2):
@@ -325,8 +412,76 @@ def gen_pearson_big(rng, tier):
             offs[j] = rng.choice(BIG_OFFSETS) * rng.choice([1, -1])
         if t in ("units", "both"):
             scs[j] = rng.choice(BIG_SCALES)
+    if t == "magnitude":
+        # every column in units of 1e-300..1e300
+        scs = [rng.choice([1e-300, 1e-200, 1e-150, 1e150, 1e200, 1e300]) for _ in range(2)] + \
+              [rng.choice([1e-300, 1e-200, 1e-150, 1e-100, 1e100, 1e150, 1e200, 1e300]) for _ in range(nz)]
     c["big"] = {"type": t, "offsets": offs, "scales": scs}
+    if t == "near-collinear" and nz == 2:
+        c["big"]["delta_bits"] = rng.choice([10, 20, 30])      # Z1 := Z0 + 2^-bits * Z1
     return c
+
+
+def gen_psession(rng, tier):
+    """pearsonr on ONE frame object: 2-4 calls with in-place edits between them"""
+    k = 4
+    n = rng.randint(8, 16)
+    cols = [[rng.randint(-40, 40) for _ in range(n)] for _ in range(k)]
+    for i in range(n):
+        cols[1][i] += cols[2][i]
+        cols[0][i] += cols[2][i] - cols[3][i]
+    steps = []
+    X, Y = 0, 1
+    prevZ = None
+    for i in range(rng.randint(2, 4)):
+        edit = None
+        if i > 0:
+            t = rng.choice(["setcol", "setcol", "loc", "scalecol", "perm", "sort", "none"])
+            zc = prevZ or [2, 3]
+            c = rng.choice(zc + [X] if rng.random() < 0.8 else [X, Y])
+            if t == "setcol":
+                edit = ["setcol", c, [rng.randint(-40, 40) for _ in range(n)]]
+            elif t == "loc":
+                edit = ["loc", [[rng.randrange(n), c, rng.randint(-40, 40)] for _ in range(rng.randint(1, n // 2))]]
+            elif t == "scalecol":
+                edit = ["scalecol", c, rng.choice([2, 4, -1, 8])]
+            elif t == "perm":
+                perm = list(range(n))
+                rng.shuffle(perm)
+                edit = ["perm", perm]
+            elif t == "sort":
+                edit = ["sort", [rng.randrange(k)], rng.random() < 0.5]
+        if rng.random() < 0.3:
+            X, Y = rng.sample(range(k), 2)
+        others = [c for c in range(k) if c not in (X, Y)]
+        if prevZ is not None and rng.random() < 0.7 and all(c not in (X, Y) for c in prevZ):
+            Z = list(prevZ)
+        else:
+            Z = rng.sample(others, rng.randint(0, 2))
+        prevZ = Z
+        steps.append({"edit": edit, "X": X, "Y": Y, "Z": Z, "alpha": rng.choice(ALPHAS)})
+    return {"kind": "psession", "den": 16, "cols": cols, "steps": steps}
+
+
+def gen_pc(rng, tier):
+    """the route through PC.build_skeleton on 2 or 3 variables"""
+    t = rng.choice(WRAPPERS[:5] + ["pearsonr"])
+    nv = rng.choice([2, 3, 3])
+    n = rng.choice([20, 40, 80])
+    if t == "pearsonr":
+        cols = [[rng.randint(-40, 40) for _ in range(n)] for _ in range(nv)]
+        w = rng.choice([0, 1, 2])
+        for i in range(n):
+            cols[1][i] += w * cols[0][i]
+            if nv == 3:
+                cols[2][i] += rng.choice([0, 1]) * cols[0][i] + rng.choice([0, 1]) * cols[1][i]
+        rows = [[cols[c][i] for c in range(nv)] for i in range(n)]
+    else:
+        cards = [rng.randint(2, 3) for _ in range(nv)]
+        rows = gen_rows(rng, nv, cards, n, rng.choice(["unif", "copy", "dep"]), 0, 1, [2] if nv == 3 else [])
+    return {"kind": "pc", "test": t, "rows": rows, "nv": nv, "alpha": rng.choice([0.01, 0.05, 0.1, 0.5]),
+            "variant": rng.choice(["orig", "stable", "parallel"]) if nv == 2 else rng.choice(["stable", "parallel"]),
+            "lambda": rng.choice([None, None, "neyman", 0, 1.5]) if t == "power_divergence_default" else None}
 
 
 def gen_session(rng, tier):
@@ -380,13 +535,19 @@ def cases(tier, seed):
     rng = random.Random(seed * 7919 + 19)
     mult = 1 if tier == "quick" else 10
     out = []
-    for _ in range(900 * mult):
+    for _ in range(650 * mult):
         out.append(gen_disc(rng, tier))
+    for _ in range(12 * mult):
+        out.append(gen_wide(rng, tier))
+    for _ in range(40 * mult):
+        out.append(gen_const(rng, tier))
+    for _ in range(3 * mult):
+        out.append(gen_large(rng, tier))
     for _ in range(3 * mult):
         for larg in NUMERIC_GRID:
             for with_z in (False, True):
                 out.append(gen_lambda(rng, larg, with_z))
-    for _ in range(150 * mult):
+    for _ in range(100 * mult):
         out.append(gen_session(rng, tier))
     # index stream: the same rows under every kind of pandas index
     for _ in range(60 * mult):
@@ -401,11 +562,15 @@ def cases(tier, seed):
         out.append(c)
     for _ in range(80 * mult):
         out.append(gen_pearson_big(rng, tier))
-    for _ in range(250 * mult):
+    for _ in range(40 * mult):
+        out.append(gen_psession(rng, tier))
+    for _ in range(40 * mult):
+        out.append(gen_pc(rng, tier))
+    for _ in range(180 * mult):
         out.append(gen_indep(rng, tier))
     for _ in range(90 * mult):
         out.append(gen_bad(rng, tier))
-    for _ in range(300 * mult):
+    for _ in range(220 * mult):
         out.append(gen_pearson(rng, tier))
     # fixed corner cases: p == alpha exactly (p = 1.0 = alpha; dof 0 with Z; dof 0 without Z)
     out.append({"kind": "indep", "kinds": [None, None], "rows": [[0, 0], [0, 1], [1, 0], [1, 1]] * 2, "X": 0, "Y": 1,
@@ -514,6 +679,43 @@ def p_opt(p):
 # string names only: pandas' groupby/unstack resolve integer column names positionally in some cases
 COLNAMES = [["A", "B", "C", "D", "E", "F"], ["v0", "v1", "v2", "v3", "v4", "v5"], ["n3", "n1", "n4", "n15", "n9", "n2"],
             ["x", "Y", "y", "X", "zz", "Z"]]
+# extended name sets (cases carrying "nameset"): one name a substring/prefix of another, names equal to pandas
+# keywords produced by groupby/size/reset_index, empty and blank-containing names, integer names (integer names only
+# on frames without Categorical columns: pandas itself mis-resolves them otherwise; tuple and bool names are
+# rejected by pandas' .loc / groupby on the unchanged tree and are not generated)
+NAMESETS = [["x1", "x10", "x", "x100", "x11", "1x", "x101", "x1 ", "xx", "x0", "x2"],
+            ["index", "level_0", "size", "count", "values", "0", "level_1", "columns", "data", "lambda_", "Z"],
+            ["", " ", "a b", "a", "b", "A", "a.b", "a,b", "a=b", "a|b", "b "],
+            [1, 10, 0, 11, 100, 2, 101, -1, 12, 3, 4]]
+FLOATCLOSE = [0.1 + 0.2, 0.3, 1e-12, 0.0, 0.30000000000000016]     # distinct floats are distinct levels
+DTYPES_INT = ["int", "relabel", "float", "floatclose", "bool", "obj-str", "str", "Int64", "int8", "obj-tuple"]
+
+
+def column_values(vals, dt):
+    import numpy as np
+    import pandas as pd
+    if dt == "int":
+        return list(vals)
+    if dt == "relabel":
+        return [3 * v - 2 for v in vals]
+    if dt == "float":
+        return [v + 0.5 for v in vals]
+    if dt == "floatclose":
+        return [FLOATCLOSE[v] for v in vals]
+    if dt == "bool":
+        return [bool(v) for v in vals] if max(vals) <= 1 else list(vals)
+    if dt == "obj-str":
+        return np.array(["s%d" % (7 - v) for v in vals], dtype=object)
+    if dt == "str":
+        return pd.array(["s%d" % v for v in vals], dtype="str")
+    if dt == "Int64":
+        return pd.array([5 - v for v in vals], dtype="Int64")
+    if dt == "int8":
+        return np.array(vals, dtype=np.int8)
+    if dt == "obj-tuple":
+        return pd.Series([("t", int(v)) for v in vals], dtype=object).values
+    raise ValueError(dt)
+
 CATLABELS = [lambda k: list(range(k)), lambda k: ["s%d" % i for i in range(k)],
              lambda k: [10 * (k - i) for i in range(k)], lambda k: ["q", "a", "zz", "m", "b", "c"][:k]]
 
@@ -522,10 +724,19 @@ def frame(case, rows=None):
     import pandas as pd
     rows = case["rows"] if rows is None else rows
     names = COLNAMES[case["lab"] % len(COLNAMES)]
+    if case.get("nameset") is not None:
+        ns = case["nameset"]
+        if ns == 3 and any(k is not None for k in case["kinds"]):
+            ns = 0
+        r = random.Random(case["sh"])
+        names = list(NAMESETS[ns])
+        r.shuffle(names)
     d = {}
     for c, kind in enumerate(case["kinds"]):
         vals = [r[c] for r in rows]
-        if kind is None:
+        if kind is None and case.get("dt"):
+            d[names[c]] = column_values(vals, case["dt"][c])
+        elif kind is None:
             mul, off = (1, 0) if (case["lab"] + c) % 2 == 0 else (3, -2)
             d[names[c]] = [mul * v + off for v in vals]
         else:
@@ -550,6 +761,29 @@ def larg_py(case):
     return {"lambda_": l[1]}, [0, 6]   # the documented spelling 'freeman-tuckey' (accepted since fix 50eed3a)
 
 
+ZFORMS = ["list", "tuple", "set", "frozenset", "ndarray", "index", "iter", "dict_keys"]
+
+
+def z_container(zs, form):
+    import numpy as np
+    import pandas as pd
+    if form == "tuple":
+        return tuple(zs)
+    if form == "set":
+        return set(zs)
+    if form == "frozenset":
+        return frozenset(zs)
+    if form == "ndarray":
+        return np.array(zs, dtype=object)
+    if form == "index":
+        return pd.Index(zs, dtype=object)
+    if form == "iter":
+        return iter(list(zs))
+    if form == "dict_keys":
+        return {z: None for z in zs}.keys()
+    return list(zs)
+
+
 def call_impl(case, df, names, X, Y, Z, boolean):
     from pgmpy.estimators import CITests
     kw, _ = larg_py(case)
@@ -557,7 +791,14 @@ def call_impl(case, df, names, X, Y, Z, boolean):
     fn = CITests.power_divergence if w.startswith("power_divergence") else getattr(CITests, w)
     if boolean:
         kw["significance_level"] = case["alpha"]
-    return fn(X=names[X], Y=names[Y], Z=[names[z] for z in Z], data=df, boolean=boolean, **kw)
+    zs = z_container([names[z] for z in Z], case.get("zform", "list"))
+    form = case.get("callform", "kw")
+    if form == "pc" and boolean:
+        # exactly PC.build_skeleton's call: positional X, Y, separating set (a tuple), no `boolean`
+        return fn(names[X], names[Y], tuple(names[z] for z in Z), data=df, independencies=None, **kw)
+    if form == "pos":
+        return fn(names[X], names[Y], zs, df, boolean, **kw)
+    return fn(X=names[X], Y=names[Y], Z=zs, data=df, boolean=boolean, **kw)
 
 
 def impl_triple(case, df, names, X, Y, Z):
@@ -586,7 +827,58 @@ def triples_agree(a, b):
     return same_float(a[1], b[1], 1e-9) and same_float(a[2], b[2], 1e-9, True) and a[3] == b[3]
 
 
+def run_reject(case, drv):
+    """calls that must raise; afterwards the frame is unchanged and a valid call on it answers as the model does"""
+    from pgmpy.estimators import CITests
+    df, names = frame(case)
+    X, Y, Z = case["X"], case["Y"], case["Z"]
+    t = case["reject"]
+    tags = ["kind:bad", "reject:" + t]
+    key = common.canon_key(["reject", t, case["rows"], X, Y, Z, case["w"]])
+    snap = df.copy(deep=True)
+    w = case["w"]
+    fn = CITests.power_divergence if w.startswith("power_divergence") else getattr(CITests, w)
+    zs = [names[z] for z in Z]
+    missing = "no such column"
+    calls = {
+        "znoniter": [(lambda: fn(X=names[X], Y=names[Y], Z=None, data=df, boolean=False), (TypeError, ValueError)),
+                     (lambda: fn(X=names[X], Y=names[Y], Z=5, data=df, boolean=False), (TypeError, ValueError)),
+                     (lambda: CITests.pearsonr(X=names[X], Y=names[Y], Z=None, data=df, boolean=False), (ValueError,))],
+        "nocol": [(lambda: fn(X=missing, Y=names[Y], Z=zs, data=df, boolean=False), (KeyError,)),
+                  # (pandas reads a key list as per-row labels when its length equals the number of rows and a key is
+                  #  not a column, so that frame size is left out)
+                  (lambda: fn(X=names[X], Y=names[Y], Z=zs + [missing], data=df, boolean=False)
+                   if len(df) != len(zs) + 1 else (_ for _ in ()).throw(KeyError(missing)), (KeyError,)),
+                  (lambda: fn(X=names[X], Y=missing, Z=zs, data=df, boolean=True, significance_level=0.05), (KeyError,))],
+        "noalpha": [(lambda: fn(X=names[X], Y=names[Y], Z=zs, data=df, boolean=True), (KeyError,)),
+                    (lambda: fn(X=names[X], Y=names[Y], Z=zs, data=df), (KeyError,)),
+                    (lambda: CITests.pearsonr(X=names[X], Y=names[Y], Z=zs, data=df.to_dict("list"), boolean=False),
+                     (ValueError,))],
+        "badlambda": [],
+    }[t]
+    for i, (f, excs) in enumerate(calls):
+        try:
+            r = f()
+        except excs:
+            continue
+        except Exception as e:        # another exception type: still a rejection, but record which
+            tags.append("reject-other:%s" % type(e).__name__)
+            continue
+        return bad("impl-accepts-invalid-call", {"reject": t, "call": i, "returned": str(r)[:200]}, key=key, tags=tags)
+    if not (df.equals(snap) and list(df.dtypes) == list(snap.dtypes) and df.index.equals(snap.index)):
+        return bad("argument-mutated:data", {"after-rejected-call": t}, key=key, tags=tags)
+    # the valid call afterwards
+    c2 = dict(case)
+    c2.pop("reject")
+    c2["kind"] = "disc"
+    out = run_disc(c2, drv)
+    out["tags"] = tags + [x for x in out.get("tags", []) if not x.startswith("kind:")]
+    return out
+
+
 def run_disc(case, drv):
+    if case.get("reject"):
+        return run_reject(case, drv)
     df, names = frame(case)
     X, Y, Z = case["X"], case["Y"], case["Z"]
     tags = ["kind:" + case["kind"], "w:" + case["w"], "nz:%d" % len(Z), "law:" + case["law"],
@@ -600,7 +892,11 @@ def run_disc(case, drv):
     key = common.canon_key([case["kind"], case["kinds"], sorted(map(tuple, case["rows"])), X, Y, Z, case["w"],
                             case["larg"], case["alpha"]])
     kw, lwire = larg_py(case)
+    snap = df.copy(deep=True)
     impl = impl_triple(case, df, names, X, Y, Z)
+    for t in ("dt", "nameset", "zform", "callform"):
+        if case.get(t) is not None:
+            tags.append("%s:%s" % (t, ",".join(sorted(set(case[t]))) if t == "dt" else case[t]))
 
     widx = WRAPPERS.index(case["w"])
     kinds_wire = [[] if k is None else [k] for k in case["kinds"]]
@@ -643,6 +939,11 @@ def run_disc(case, drv):
     if p_i != p_i:
         tags.append("p:nan")
 
+    # argument purity: the caller's frame is unchanged (values, dtypes, index, column order)
+    if not (df.equals(snap) and list(df.columns) == list(snap.columns) and df.index.equals(snap.index)
+            and list(df.dtypes) == list(snap.dtypes)):
+        return bad("argument-mutated:data", {"before": snap.to_dict("list"), "after": df.to_dict("list")}, key=key, tags=tags)
+
     # metamorphic relations on pgmpy itself
     rng = random.Random(case["sh"])
     rel = [("swap-xy", df, Y, X, Z)]
@@ -654,6 +955,24 @@ def run_disc(case, drv):
         while Z2 == list(Z):
             rng.shuffle(Z2)
         rel.append(("z-order", df, X, Y, Z2))
+    # the same rows obtained by FILTERING a larger frame (gapped index; Categorical levels left unused by the filter)
+    extra = []
+    for _ in range(rng.randint(1, 6)):
+        r = list(rng.choice(case["rows"]))
+        for c, k in enumerate(case["kinds"]):
+            if k is not None:
+                r[c] = rng.randrange(k)
+        extra.append(r)
+    pos = sorted(rng.sample(range(len(case["rows"]) + len(extra)), len(extra)))
+    merged, mask, it = [], [], iter(case["rows"])
+    for i in range(len(case["rows"]) + len(extra)):
+        if i in pos:
+            merged.append(extra[pos.index(i)])
+            mask.append(False)
+        else:
+            merged.append(next(it))
+            mask.append(True)
+    rel.append(("filtered-frame", frame(case, merged)[0].loc[mask], X, Y, Z))
     for kind in index_kinds_for(case):
         d2 = df.copy()
         d2.index = make_index(kind, len(d2), case["sh"])
@@ -679,13 +998,29 @@ def run_disc(case, drv):
 
 
 # ------------------------------------------------------------------ pearsonr
-def pearson_frame(den, z, x, y):
+def setcols(df, d):
+    d2 = df.copy()
+    for k, v in d.items():
+        d2[k] = v
+    return d2
+
+
+PNAMES = [("X", "Y", ["Z0", "Z1", "Z2"]), ("x1", "x10", ["x", "x100", "x11"]), ("index", "size", ["level_0", "count", "values"]),
+          (0, 1, [10, 2, 11]), ("", " ", ["a b", "a", "b"])]
+
+
+def pearson_frame(den, z, x, y, pnames=0):
     import pandas as pd
-    d = {"X": [v / den for v in x], "Y": [v / den for v in y]}
+    xn, yn, zall = PNAMES[pnames]
     nz = len(z[0]) if z else 0
+    zn = zall[:nz]
+    d = {}
+    # column order in the frame is not X, Y, Z...: conditioning columns first, then Y, then X
     for j in range(nz):
-        d["Z%d" % j] = [r[j] / den for r in z]
-    return pd.DataFrame(d), ["Z%d" % j for j in range(nz)]
+        d[zn[j]] = [r[j] / den for r in z]
+    d[yn] = [v / den for v in y]
+    d[xn] = [v / den for v in x]
+    return pd.DataFrame(d), xn, yn, list(zn)
 
 
 def pearson_p(r, n):
@@ -713,8 +1048,12 @@ def run_pearson(case, drv):
         if max(cm) - min(cm) >= 5.0 and max(cs) >= 3 * max(1, min(cs)):
             tags.append("z-columns:different-means-and-scales")
     key = common.canon_key(["pearson", z, x, y, case["alpha"]])
-    df, zn = pearson_frame(den, z, x, y)
-    coef_i, p_i = CITests.pearsonr("X", "Y", zn, df, boolean=False)
+    df, xn, yn, zn = pearson_frame(den, z, x, y, case.get("pnames", 0))
+    snap = df.copy(deep=True)
+    zform = case.get("zform", "list")
+    zc = lambda names_: z_container(names_, zform)
+    tags += ["pnames:%d" % case.get("pnames", 0), "zform:" + zform]
+    coef_i, p_i = CITests.pearsonr(xn, yn, zc(zn), df, boolean=False)
     coef_i, p_i = float(coef_i), float(p_i)
     fr = lambda v: Fraction(v, den)
     m = drv.call("c19_pearson", [nz == 0, [[fr(v) for v in r] for r in z], [fr(v) for v in x], [fr(v) for v in y]])
@@ -724,7 +1063,7 @@ def run_pearson(case, drv):
     rx = np.array([float(common.frac(v)) for v in rx])
     ry = np.array([float(common.frac(v)) for v in ry])
     # independent numpy computation of the residuals (pseudo-inverse projection on [1 Z])
-    xv, yv = df["X"].values, df["Y"].values
+    xv, yv = df[xn].values, df[yn].values
     if nz:
         A = np.column_stack([np.ones(n)] + [df[c].values for c in zn])
         P = A @ np.linalg.pinv(A)
@@ -742,7 +1081,7 @@ def run_pearson(case, drv):
             # if lstsq is exact, so the strict check is made for Z = [] only): coefficient and p-value are NaN
             # and the verdict is False for every significance level
             tags.append("constant-column:%s" % ("noZ" if nz == 0 else "Z"))
-            v_i = bool(CITests.pearsonr("X", "Y", zn, df, boolean=True, significance_level=case["alpha"]))
+            v_i = bool(CITests.pearsonr(xn, yn, tuple(zn), data=df, independencies=None, significance_level=case["alpha"]))
             v_m = bool(drv.call("c19_verdict", [p_opt(p_i), Fraction(case["alpha"])]))
             if nz == 0 and not (coef_i != coef_i and p_i != p_i and v_i is False):
                 return bad("impl!=model:pearson-constant", {"impl": [coef_i, p_i, v_i], "model": ["nan", "nan", False]},
@@ -761,7 +1100,7 @@ def run_pearson(case, drv):
     if not same_float(p_i, p_m, 1e-8, True):
         return bad("impl!=model:pearson-p", {"impl": p_i, "model": p_m, "r": r_m, "n": n}, key=key, tags=tags)
     alpha = case["alpha"]
-    v_i = bool(CITests.pearsonr("X", "Y", zn, df, boolean=True, significance_level=alpha))
+    v_i = bool(CITests.pearsonr(xn, yn, tuple(zn), data=df, independencies=None, significance_level=alpha))
     v_own = bool(drv.call("c19_verdict", [p_opt(p_i), Fraction(alpha)]))
     if v_i != v_own:
         return bad("impl!=model:verdict", {"p_impl": p_i, "alpha": alpha, "impl": v_i, "model": v_own}, key=key, tags=tags)
@@ -775,46 +1114,52 @@ def run_pearson(case, drv):
     sh, sc = case["shifts"], case["scales"]
     rng = random.Random(case["zperm"])
     variants = []
-    variants.append(("shift", df.assign(**{c: df[c] + sh[i] / den for i, c in enumerate(["X", "Y"] + zn)}), zn))
-    variants.append(("scale", df.assign(**{c: df[c] * sc[i] for i, c in enumerate(["X", "Y"] + zn)}), zn))
-    variants.append(("affine", df.assign(**{c: df[c] * sc[i] + sh[i] / den for i, c in enumerate(["X", "Y"] + zn)}), zn))
+    variants.append(("shift", setcols(df, {c: df[c] + sh[i] / den for i, c in enumerate([xn, yn] + zn)}), zn))
+    variants.append(("scale", setcols(df, {c: df[c] * sc[i] for i, c in enumerate([xn, yn] + zn)}), zn))
+    variants.append(("affine", setcols(df, {c: df[c] * sc[i] + sh[i] / den for i, c in enumerate([xn, yn] + zn)}), zn))
     if nz:
         j = rng.randrange(nz)
-        variants.append(("shift-one-z", df.assign(**{zn[j]: df[zn[j]] + 5.0}), zn))
+        variants.append(("shift-one-z", setcols(df, {zn[j]: df[zn[j]] + 5.0}), zn))
     if nz >= 2:
         z2 = list(zn)
         rng.shuffle(z2)
         variants.append(("z-order", df, z2))
         # centre every conditioning column by ITS OWN mean / standardise every column separately
-        variants.append(("z-center-columns", df.assign(**{c: df[c] - df[c].mean() for c in zn}), zn))
+        variants.append(("z-center-columns", setcols(df, {c: df[c] - df[c].mean() for c in zn}), zn))
         sd = {c: float(df[c].std()) for c in zn}
         if all(v > 0 for v in sd.values()):
-            variants.append(("z-standardise-columns", df.assign(**{c: (df[c] - df[c].mean()) / sd[c] for c in zn}), zn))
+            variants.append(("z-standardise-columns", setcols(df, {c: (df[c] - df[c].mean()) / sd[c] for c in zn}), zn))
     for kind in index_kinds_for(case):
         d2 = df.copy()
         d2.index = make_index(kind, n, case["zperm"])
         variants.append(("index-" + kind, d2, zn))
         tags.append("index:%s:%s" % (kind, "Z" if nz else "noZ"))
+    # integer dtypes: the same data in units of 1/den are whole numbers
+    variants.append(("int64-dtype", (df * den).round().astype("int64"), zn))
+    variants.append(("int32-mixed", (df * den).round().astype({c: "int32" for c in ([xn] + zn[:1])}), zn))
     xs = case.get("xscales")
     if xs:
-        cols = ["X", "Y"] + zn
-        variants.append(("extreme-scale-all", df.assign(**{c: df[c] * xs[i] for i, c in enumerate(cols)}), zn))
+        cols = [xn, yn] + zn
+        variants.append(("extreme-scale-all", setcols(df, {c: df[c] * xs[i] for i, c in enumerate(cols)}), zn))
         j = rng.randrange(len(cols))
-        variants.append(("extreme-scale-one", df.assign(**{cols[j]: df[cols[j]] * xs[j]}), zn))
+        variants.append(("extreme-scale-one", setcols(df, {cols[j]: df[cols[j]] * xs[j]}), zn))
         tags.append("extreme-scales")
     variants.append(("row-shuffle", df.sample(frac=1.0, random_state=case["zperm"] % (2 ** 31)).reset_index(drop=True), zn))
     for name, d2, z2 in variants:
-        c2, p2 = CITests.pearsonr("X", "Y", z2, d2, boolean=False)
+        c2, p2 = CITests.pearsonr(xn, yn, zc(z2), d2, boolean=False)
         tol = 1e-7 if name.startswith("extreme") else 1e-9
         if not same_float(c2, coef_i, tol) or not same_float(p2, p_i, max(tol, 1e-8), True):
             return bad("impl!=property:pearson-" + name, {"base": [coef_i, p_i], "transformed": [float(c2), float(p2)]},
                        key=key, tags=tags)
         if name.startswith("extreme") and abs(p_i - alpha) >= 1e-6:
-            v2 = bool(CITests.pearsonr("X", "Y", z2, d2, boolean=True, significance_level=alpha))
+            v2 = bool(CITests.pearsonr(X=xn, Y=yn, Z=z2, data=d2, boolean=True, significance_level=alpha))
             if v2 != v_i:
                 return bad("impl!=property:pearson-" + name + "-verdict", {"base": v_i, "transformed": v2, "p": p_i,
                                                                             "alpha": alpha}, key=key, tags=tags)
-    c2, p2 = CITests.pearsonr("Y", "X", zn, df, boolean=False)
+    if not (df.equals(snap) and list(df.dtypes) == list(snap.dtypes) and df.index.equals(snap.index)
+            and list(df.columns) == list(snap.columns)):
+        return bad("argument-mutated:data", {"fn": "pearsonr"}, key=key, tags=tags)
+    c2, p2 = CITests.pearsonr(yn, xn, zn, df, boolean=False)
     if not same_float(c2, coef_i, 1e-9):
         return bad("impl!=property:pearson-swap-xy", {"base": coef_i, "transformed": float(c2)}, key=key, tags=tags)
     return ok(nontrivial=True, key=key, tags=tags)
@@ -829,6 +1174,10 @@ def run_pearson_big(case, drv):
     n = len(x)
     nz = len(z[0]) if z else 0
     cols = [np.array(x) / den, np.array(y) / den] + [np.array([r[j] for r in z]) / den for j in range(nz)]
+    delta = 1.0
+    if big.get("delta_bits") and nz == 2:
+        delta = 2.0 ** -big["delta_bits"]
+        cols[3] = cols[2] + delta * cols[3]            # exact in floats: two nearly collinear conditioning columns
     names = ["X", "Y"] + ["Z%d" % j for j in range(nz)]
     zn = names[2:]
     given = []
@@ -844,12 +1193,13 @@ def run_pearson_big(case, drv):
             kappa = max(kappa, abs(float(np.mean(g))) / sd)
     zscales = [big["scales"][j] for j in range(2, nz + 2)]
     tags = ["kind:pearson_big", "nz:%d" % nz, "big:" + big["type"], "offset/spread:1e%d" % round(math.log10(kappa)),
-            "unit-span:1e%d" % round(math.log10(max(big["scales"]) / min(big["scales"])))]
+            "unit-span:1e%d" % round(math.log10(max(big["scales"])) - math.log10(min(big["scales"])))]
     key = common.canon_key(["pearson_big", z, x, y, big, case["alpha"]])
     # the untransformed dyadic data: is the partial correlation defined at all, and how much of X and Y is left
     # after regressing on Z (a small residual amplifies every perturbation of the data by spread/residual spread)
     fb = lambda v: Fraction(v, den)
-    mb = drv.call("c19_pearson", [nz == 0, [[fb(v) for v in r] for r in z], [fb(v) for v in x], [fb(v) for v in y]])
+    zb = [[Fraction(float(cols[2 + j][i])) for j in range(nz)] for i in range(n)]
+    mb = drv.call("c19_pearson", [nz == 0, zb, [fb(v) for v in x], [fb(v) for v in y]])
     if not mb[3]:
         return ok(nontrivial=False, key=key, tags=tags + ["corr:undefined"])
     amp = 1.0
@@ -858,7 +1208,12 @@ def run_pearson_big(case, drv):
         amp = max(amp, float(col.std()) / rs)
     fr = lambda a: [Fraction(float(v)) for v in a]
     zr = [[Fraction(float(given[2 + j][i])) for j in range(nz)] for i in range(n)]
-    m = drv.call("c19_pearson", [nz == 0, zr, fr(given[0]), fr(given[1])])
+    if big["type"] == "magnitude":
+        # pure unit changes by 1e-300..1e300: the exact answer is the one of the unscaled data
+        # (C19_pearson_shift_scale_invariant); the float product perturbs every entry by <= 1 ulp
+        m = mb
+    else:
+        m = drv.call("c19_pearson", [nz == 0, zr, fr(given[0]), fr(given[1])])
     corr = m[3]
     if not corr:
         return ok(nontrivial=False, key=key, tags=tags + ["corr:undefined"])
@@ -866,20 +1221,169 @@ def run_pearson_big(case, drv):
     coef_i, p_i = CITests.pearsonr("X", "Y", zn, df, boolean=False)
     coef_i, p_i = float(coef_i), float(p_i)
     eps = 2.220446049250313e-16
-    tol = max(1e-8, 256.0 * eps * kappa * n * amp * amp)
+    tol = max(1e-8, 256.0 * eps * kappa * n * amp * amp / delta)
     tol_p = max(1e-8, 10.0 * math.sqrt(n) * tol)
     p_m = pearson_p(r_m, n)
     detail = {"impl": [coef_i, p_i], "model_exact_on_given_floats": [r_m, p_m], "tolerance": tol, "offset/spread": kappa, "spread/residual-spread": amp,
               "offsets": big["offsets"], "scales": big["scales"], "n": n}
     if not (abs(coef_i - r_m) <= tol and abs(p_i - p_m) <= tol_p):
-        # known class on the tree without the centring repair: lstsq(rcond=None) on the raw [1 Z] drops (or loses
-        # digits of) a conditioning column with a large offset or a very different unit
+        # (before fix 3ee69a0 lstsq(rcond=None) on the raw [1 Z] dropped a conditioning column with a large offset
+        # or a very different unit)
+        zover = nz and any(not (1e-154 < sc < 1e154) for sc in big["scales"][2:])
         return bad("impl!=model:pearson-conditioning", detail, key=key, tags=tags,
-                   finding="pearsonr-lstsq-conditioning" if nz else None)
+                   finding="pearsonr-z-norm-overflow" if zover else None)
     alpha = case["alpha"]
     v_i = bool(CITests.pearsonr("X", "Y", zn, df, boolean=True, significance_level=alpha))
     if abs(p_m - alpha) > tol_p and v_i != bool(drv.call("c19_verdict", [p_opt(p_m), Fraction(alpha)])):
         return bad("impl!=model:verdict", detail, key=key, tags=tags)
+    return ok(nontrivial=True, key=key, tags=tags)
+
+
+def run_psession(case, drv):
+    import numpy as np
+    import pandas as pd
+    from pgmpy.estimators import CITests
+    den = case["den"]
+    k = len(case["cols"])
+    names = ["v%d" % i for i in range(k)]
+    df = pd.DataFrame({names[c]: [v / den for v in case["cols"][c]] for c in range(k)})
+    tags = ["kind:psession", "calls:%d" % len(case["steps"])]
+    key = common.canon_key(["psession", case["cols"], case["steps"]])
+    prevZ = None
+    for i, st in enumerate(case["steps"]):
+        e = st["edit"]
+        if e:
+            tags.append("pedit:" + e[0])
+            if e[0] == "setcol":
+                df[names[e[1]]] = [v / den for v in e[2]]
+            elif e[0] == "loc":
+                for lab, c, v in e[1]:
+                    df.loc[lab, names[c]] = v / den
+            elif e[0] == "scalecol":
+                df[names[e[1]]] *= e[2]
+            elif e[0] == "perm":
+                df.loc[:, :] = df.values[e[1]]
+            elif e[0] == "sort":
+                df.sort_values(by=[names[c] for c in e[1]], ascending=e[2], inplace=True, kind="stable")
+        X, Y, Z = st["X"], st["Y"], st["Z"]
+        if prevZ is not None and Z and sorted(Z) == sorted(prevZ) and e:
+            tags.append("same-Z-after-edit")
+        prevZ = Z
+        cur = {c: [Fraction(float(v)) for v in df[names[c]].values] for c in range(k)}     # current content
+        n = len(df)
+        m = drv.call("c19_pearson", [not Z, [[cur[c][r] for c in Z] for r in range(n)], cur[X], cur[Y]])
+        zn = [names[c] for c in Z]
+        coef, pv = CITests.pearsonr(names[X], names[Y], zn, df, boolean=False)
+        coef2, pv2 = CITests.pearsonr(names[X], names[Y], zn, df.copy(), boolean=False)
+        detail = {"step": i, "edit": e, "X": X, "Y": Y, "Z": Z, "session": [float(coef), float(pv)],
+                  "fresh_copy": [float(coef2), float(pv2)]}
+        if not m[3]:
+            continue
+        r_m = m[3][0][0] * math.sqrt(float(common.frac(m[3][0][1])))
+        detail["model"] = r_m
+        if not same_float(coef2, r_m, 1e-8):
+            return bad("impl!=model:pearson-coef", detail, key=key, tags=tags)
+        if not same_float(coef, r_m, 1e-8) or not same_float(pv, pv2, 1e-8, True):
+            return bad("impl!=model:session-stale", detail, key=key, tags=tags)
+        v_s = bool(CITests.pearsonr(names[X], names[Y], zn, df, boolean=True, significance_level=st["alpha"]))
+        if v_s != bool(drv.call("c19_verdict", [p_opt(pv), Fraction(st["alpha"])])):
+            return bad("impl!=model:verdict", detail, key=key, tags=tags)
+    return ok(nontrivial=True, key=key, tags=tags)
+
+
+def run_pc(case, drv):
+    """PC.build_skeleton(ci_test=<name>) on 2 or 3 variables: an edge survives iff no tested conditioning set gives
+    the verdict True (PC-stable / parallel: neighbours frozen per level; 2 variables: only Z = ())"""
+    import itertools
+    import pandas as pd
+    from pgmpy.estimators import PC
+    t, nv, alpha = case["test"], case["nv"], case["alpha"]
+    names = ["a", "b", "c"][:nv]
+    rows = case["rows"]
+    tags = ["kind:pc", "pc-test:" + t, "pc-variant:" + case["variant"], "pc-nv:%d" % nv]
+    key = common.canon_key(["pc", t, rows, alpha, case["variant"], case["lambda"]])
+    kw = {}
+    if t == "pearsonr":
+        df = pd.DataFrame({names[c]: [r[c] / 16 for r in rows] for c in range(nv)})
+    else:
+        df = pd.DataFrame({names[c]: [r[c] for r in rows] for c in range(nv)})
+    ci = "power_divergence" if t == "power_divergence_default" else t
+    lwire = []
+    w = t
+    if case["lambda"] is not None:
+        kw["lambda_"] = case["lambda"]
+        w = "power_divergence"
+        lwire = [0, LNAMES.index(case["lambda"])] if isinstance(case["lambda"], str) else [1, Fraction(case["lambda"])]
+        tags.append("pc-lambda:%s" % case["lambda"])
+
+    def verdict(u, v, Z):
+        if t == "pearsonr":
+            fr = lambda c: [Fraction(r[c], 16) for r in rows]
+            m = drv.call("c19_pearson", [not Z, [[Fraction(r[c], 16) for c in Z] for r in rows], fr(u), fr(v)])
+            if not m[3]:
+                return False, float("nan")
+            p = pearson_p(m[3][0][0] * math.sqrt(float(common.frac(m[3][0][1]))), len(rows))
+        else:
+            m = drv.call_e("c19_pd", [WRAPPERS.index(w), lwire, [[]] * nv, rows, u, v, list(Z)])
+            if m[0] == "err":
+                return None, None
+            lam, cells, dof, pkind = m[1]
+            p = eval_p(pkind, eval_stat(common.frac(lam), cells), dof)
+        return bool(drv.call("c19_verdict", [p_opt(p), Fraction(alpha)])), p
+
+    if nv == 2 and t != "pearsonr" and case["lambda"] is None:
+        # dispatch of the test NAME: significance levels strictly between the p-values of the five named tests, so
+        # that a name resolved to another test's function changes the skeleton
+        ps = {}
+        for name in WRAPPERS[:5]:
+            m = drv.call_e("c19_pd", [WRAPPERS.index(name), [], [[]] * nv, rows, 0, 1, []])
+            if m[0] == "err":
+                return ok(nontrivial=False, key=key, tags=tags + ["pc:model-error"])
+            lam, cells, dof, pkind = m[1]
+            ps[name] = eval_p(pkind, eval_stat(common.frac(lam), cells), dof)
+        nsep = 0
+        for name in WRAPPERS[:5]:
+            for other in WRAPPERS[:5]:
+                if ps[name] != ps[name] or ps[other] != ps[other] or abs(ps[name] - ps[other]) < 1e-5:
+                    continue
+                a = (ps[name] + ps[other]) / 2
+                exp_edge = not (ps[name] >= a)
+                sk, _ = PC(df).build_skeleton(ci_test="power_divergence" if name == "power_divergence_default" else name,
+                                              significance_level=a, variant=case["variant"], n_jobs=1, show_progress=False)
+                nsep += 1
+                if (len(sk.edges()) == 1) != exp_edge:
+                    return bad("impl!=model:pc-dispatch", {"ci_test": name, "alpha": a, "p_model": ps, "edge": len(sk.edges()) == 1,
+                                                           "expected_edge": exp_edge}, key=key, tags=tags)
+        tags.append("pc-dispatch-separations:%s" % ("0" if nsep == 0 else ">0"))
+    edges = set(itertools.combinations(range(nv), 2))
+    knife = False
+    for lim in range(0, nv - 1):
+        nbrs = {u: {b for (a, b) in edges if a == u} | {a for (a, b) in edges if b == u} for u in range(nv)}
+        if all(len(nbrs[u]) < lim for u in range(nv)):
+            break
+        for (u, v) in sorted(edges):
+            sets = list(itertools.combinations(sorted(nbrs[u] - {v}), lim)) + list(itertools.combinations(sorted(nbrs[v] - {u}), lim))
+            for Z in sets:
+                vd, p = verdict(u, v, Z)
+                if vd is None:
+                    return ok(nontrivial=False, key=key, tags=tags + ["pc:model-error"])
+                if p == p and abs(p - alpha) < 1e-6:
+                    knife = True
+                if vd:
+                    edges.discard((u, v))
+                    break
+    if knife:
+        return ok(nontrivial=False, key=key, tags=tags + ["pc:knife-edge"])
+    snap = df.copy(deep=True)
+    sk, sep = PC(df).build_skeleton(ci_test=ci, significance_level=alpha, variant=case["variant"], n_jobs=1,
+                                    show_progress=False, **kw)
+    got = {tuple(sorted((names.index(a), names.index(b)))) for a, b in sk.edges()}
+    if got != edges:
+        return bad("impl!=model:pc-skeleton", {"impl": sorted(got), "model": sorted(edges), "test": t, "alpha": alpha,
+                                               "variant": case["variant"]}, key=key, tags=tags)
+    if not df.equals(snap):
+        return bad("argument-mutated:data", {"fn": "PC.build_skeleton"}, key=key, tags=tags)
+    tags.append("pc-edges:%d" % len(edges))
     return ok(nontrivial=True, key=key, tags=tags)
 
 
@@ -948,6 +1452,10 @@ def run_case(case, drv):
         return run_session(case, drv)
     if case["kind"] == "pearson_big":
         return run_pearson_big(case, drv)
+    if case["kind"] == "psession":
+        return run_psession(case, drv)
+    if case["kind"] == "pc":
+        return run_pc(case, drv)
     if case["kind"] in ("disc", "indep", "bad"):
         return run_disc(case, drv)
     if case["kind"] == "pearson":
